@@ -73,6 +73,19 @@ class TokTransition(Transition):
         return state, {"tok": float(val), "flag": True, "cnt": int(k)}
 
 
+class EchoTransition(Transition):
+    """Second transition of a composed sampler: leaves the state alone and reports statistics under the SAME keys as
+    TokTransition with different values (per-transition statistics must not be mixed up, in memory or in memory-mapped files)."""
+    state_variables = set()
+
+    @property
+    def statistic_types(self):
+        return {"tok": (np.float64, np.nan), "flag": (bool, False), "cnt": (np.int64, -1)}
+
+    def sample(self, state, rng):
+        return state, {"tok": -float(state.pos[0]), "flag": True, "cnt": 7}
+
+
 class CountAdapter(Adapter):
     is_fast = True
 
@@ -175,7 +188,7 @@ def install_model():
 
 
 def run(n_warm, n_main, n_chain=2, n_process=1, assignment=None, order=None, trace_warm_up=False, stager="warmup",
-        adapters="fast", force_memmap=False, init="dict", interrupt=None, trace_funcs=True, n_pool_cap=None):
+        adapters="fast", force_memmap=False, init="dict", interrupt=None, trace_funcs=True, n_pool_cap=None, two_transitions=False):
     """One run of the real sample_chains under the model.  Returns dict of plain-Python outputs + the event log."""
     install_model()
     LOG.clear()
@@ -188,7 +201,7 @@ def run(n_warm, n_main, n_chain=2, n_process=1, assignment=None, order=None, tra
     if n_process is None and n_pool_cap:
         import os
         os.cpu_count_orig = os.cpu_count
-    sampler = SA.MarkovChainMonteCarloMethod(TokStream(), {"t": TokTransition()})
+    sampler = SA.MarkovChainMonteCarloMethod(TokStream(), {"t": TokTransition(), "u": EchoTransition()} if two_transitions else {"t": TokTransition()})
     ads = {"none": None, "fast": {"t": [CountAdapter()]}, "slow": {"t": [CountAdapter(), SlowAdapter()]}}[adapters]
     stg = {"warmup": WarmUpStager(), "windowed": WindowedWarmUpStager(), "default": None,
            # small windows: many recorded stages already for a handful of warm-up iterations
@@ -203,6 +216,7 @@ def run(n_warm, n_main, n_chain=2, n_process=1, assignment=None, order=None, tra
         "traces": None if out.traces is None else {k: [([] if len(t) == 0 else np.array(t).reshape(len(t), -1)[:, 0].tolist()) for t in v]
                                                     for k, v in out.traces.items()},
         "stats": {k: [np.array(s).tolist() for s in v] for k, v in out.statistics["t"].items()},
+        "stats_u": {k: [np.array(s).tolist() for s in v] for k, v in out.statistics["u"].items()} if two_transitions else None,
         "final": [float(s.pos[0]) for s in out.final_states],
         "log": list(LOG),
         "memmap": [type(t).__name__ for t in (out.traces or {}).get("pos", [])],
